@@ -24,13 +24,13 @@ RULE = (
 ASSUMPTIONS = [
     "split() with no separator and split('') are outside the statement (explicit separator or regex)",
     "splitlines is judged on texts whose only line boundary is \\n (the method documents newline splitting)",
-    "regex patterns are group-free and never match the empty string",
+    "regex patterns never match the empty string; capture groups are ignored (the method's docstring), so the expected pieces are the text between the matches",
     "padding added by ljust/rjust without fillchar carries only a shared background (pinned by tests/test_fmtstr.py::test_ljust_rjust); for those characters only 'no invented formatting' is asserted",
 ]
 SHARDS = {"quick": 4, "thorough": 16}
 
 SEPS = [",", " ", "ab", "\n", "::", "a", "x", ", ", "B", ".", "a|B", "[,;]+", "a.b"]
-PATTERNS = [r"\s+", r"[,;]+", r"ab?", r"\d", r"a|B", r"a.b", r"\."]
+PATTERNS = [r"\s+", r"[,;]+", r"ab?", r"\d", r"a|B", r"a.b", r"\.", r"(,|;)", r"a(b)?", r"(?:,)(\s)?"]  # "capture groups are ignored"
 BOTH = ["a|B", "[,;]+", "a.b", "B", ","]  # valid as literal separator and as regular expression
 
 
@@ -132,14 +132,16 @@ def run_case(case):
     for pat in PATTERNS:
         evals += 1
         got, err = call(lambda: f.split(pat, regex=True))
-        pieces_check("split_regex", [pat], got, err, re.split(pat, s), piece_ranges_regex(s, pat))
+        rng = piece_ranges_regex(s, pat)
+        pieces_check("split_regex", [pat], got, err, [s[a:b] for a, b in rng], rng)
     # the same string once as a literal separator and once as a regular expression, in an order that depends on the case
     order = [(b, r) for b in BOTH for r in ((False, True) if (len(s) + len(b)) % 2 else (True, False))]
     for b, as_regex in order:
         evals += 1
         got, err = call(lambda: f.split(b, regex=as_regex))
         if as_regex:
-            pieces_check("split_regex", [b], got, err, re.split(b, s), piece_ranges_regex(s, b))
+            rng = piece_ranges_regex(s, b)
+            pieces_check("split_regex", [b], got, err, [s[x:y] for x, y in rng], rng)
         else:
             pieces_check("split", [b], got, err, s.split(b), piece_ranges_sep(s, b))
     for keep in (False, True):
